@@ -110,6 +110,63 @@ def tus(tier, seed):
             body += '  binm<%d, %s, %s>(rng);\n' % (d, CT[n], CT[t])
         body += '}\n'
         res.append(dict(name='C05_mixed_%d' % (i // 4), src=body, compiler='g++'))
+    # elastic_scaled_integer meeting a cnl::constant operand (either side, * / + -): significands (trailing zero bits removed) of
+    # exactly 1..31, 32, 33, 62, 63 bits, either sign, with and without trailing zeros
+    res += sconst_tus(tier, seed)
+    return res
+
+
+def sconst_ops(d, n, e, v):
+    """which operators can be instantiated for elastic_scaled_integer<d, n, e> and constant<v> (bit 1 `*`, 2 `+ -`, 4 `/`)"""
+    a = abs(v)
+    tz = (a & -a).bit_length() - 1 if a else 0
+    used = (v if v >= 0 else -1 - v).bit_length()
+    need = max(31, used - tz)
+    td = 31 if need <= 31 else 63 if need <= 63 else 127
+    sig = (a >> tz).bit_length()
+    ops = 0
+    if d + td <= 127:
+        ops |= 1 | 4
+    elif max(d, td) <= 127:
+        ops |= 0
+    if tz > e:
+        k = tz - e
+        if sig + k <= td and max(d, td) + 1 <= 127:
+            ops |= 2
+    else:
+        if max(d + (e - tz), td) + 1 <= 127:
+            ops |= 2
+    return ops
+
+
+def sconst_tus(tier, seed):
+    rnd = random.Random(seed * 613 + 29)
+    consts = [3, -5, 1024, 4294967295, 0x80000001, -4294967295, 0xFFFFFFFF00, 0x100000001, -0x100000003, 0x7fffffff00000000,
+              0x7fffffff, -0x7fffffff, 0x80000000, -0x80000000, -(1 << 32), 0xFFFFFFFF << 31, 0x1FFFFFFFF, 3000000001, 0x7fffffffffffffff,
+              -0x7fffffffffffffff, 0x4000000000000001, 0x3fffffffffffffff, 0x600000002, (1 << 62) + (1 << 31), 0xFFFFFFFE00000000 >> 1]
+    for bits in [31, 32, 32, 33, 62, 63, 63] * (1 if tier == 'quick' else 6):
+        sgn = rnd.choice([1, -1])
+        sig = (1 << (bits - 1)) | rnd.getrandbits(bits - 1) | 1
+        consts.append(sgn * (sig << rnd.choice([0, 0, 1, 7, 63 - bits])))
+    lhs = [(8, 'i32', -4), (8, 'u8', -4), (40, 'i32', -4), (50, 'i64', -4), (15, 'i16', 0), (31, 'i32', -31), (7, 'i8', 8), (20, 'u32', 3), (63, 'i64', -10)]
+    items = []
+    for i, v in enumerate(consts):
+        picks = [lhs[i % len(lhs)], rnd.choice(lhs)]
+        if tier != 'quick':
+            picks.append((rnd.choice([3, 8, 16, 24, 33, 60]), rnd.choice(list(CT)), rnd.randint(-20, 20)))
+        for (d, n, e) in picks:
+            ops = sconst_ops(d, n, e, v)
+            if ops and (d, n, e, v, ops) not in items:
+                items.append((d, n, e, v, ops))
+    res = []
+    per = 6
+    for i in range(0, len(items), per):
+        body = '#include "%s"\nint main(){ install(); Rng rng(seed_from_env()+6000+%d);\n' % (__file__.replace('.py', '.h'), i)
+        for (d, n, e, v, ops) in items[i:i + per]:
+            vs = ('I(%d)' % v) if abs(v) < (1 << 63) else ('(I(%d) * I(%d) + I(%d))' % (v >> 32 if v >= 0 else -((-v) >> 32), 1 << 32, (v & 0xFFFFFFFF) if v >= 0 else -((-v) & 0xFFFFFFFF)))
+            body += '  sconst<%d, %s, %d, %s, %d>(rng);\n' % (d, CT[n], e, vs, ops)
+        body += '}\n'
+        res.append(dict(name='C05_const_%d' % (i // per), src=body, compiler='g++'))
     return res
 
 
